@@ -285,3 +285,53 @@ Print Assumptions C11_type_mention_rejected_in_both_orders.
 Print Assumptions C11_type_mention_rejected_wherever_declared.
 Print Assumptions C11_enum_mention_rejected_wherever_declared.
 Print Assumptions C11_type_mention_example.
+
+(* ---- the order in which the type declarations are gone through (types agent; /repo 58eff66,
+   dependency::type_declaration_order, Types/DeclOrder.v): every declaration of the program's type variables is in it,
+   nothing else is, and a declaration stands AFTER the declaration of every type it mentions -- unless that type mentions
+   it back (reach w v: the two are on a circle of mentions; such declarations stay as the depth-first search meets them).
+   So a chain `A { b: B }`, `B { c: C }`, `C { .. }` is gone through as C, B, A in each of the six source orders. *)
+From Sylt Require Types.DeclOrder.
+
+Theorem C11_type_declarations_in_mention_order : forall stmts v d w dw,
+  Sylt.Types.DeclOrder.decl_of v (Sylt.Types.DeclOrder.decls_of stmts) = Some d ->
+  In w (Sylt.Types.DeclOrder.mentioned d) ->
+  Sylt.Types.DeclOrder.decl_of w (Sylt.Types.DeclOrder.decls_of stmts) = Some dw ->
+  ~ Sylt.Types.DeclOrder.reach stmts w v ->
+  Sylt.Types.DeclOrder.before dw d (Sylt.Types.DeclOrder.type_decl_order stmts).
+Proof. exact Sylt.Types.DeclOrder.decl_order_respects_mentions. Qed.
+
+Theorem C11_type_declaration_order_complete : forall stmts,
+  (forall d, In d (Sylt.Types.DeclOrder.type_decl_order stmts) -> In d stmts /\ Sylt.Types.DeclOrder.decl_var d <> None) /\
+  (forall d v, In d stmts -> Sylt.Types.DeclOrder.decl_var d = Some v ->
+               exists d', In d' (Sylt.Types.DeclOrder.type_decl_order stmts) /\ Sylt.Types.DeclOrder.decl_var d' = Some v).
+Proof.
+  intros stmts. split; [apply Sylt.Types.DeclOrder.type_decl_order_sound|].
+  intros d v. apply Sylt.Types.DeclOrder.type_decl_order_covers.
+Qed.
+
+(* the definitions, pinned *)
+Example C11_before_def : forall a b l, Sylt.Types.DeclOrder.before a b l = (exists l1 l2 l3, l = l1 ++ a :: l2 ++ b :: l3).
+Proof. reflexivity. Qed.
+Example C11_mentions_def : forall stmts v w,
+  Sylt.Types.DeclOrder.mentions stmts v w =
+  (exists d, Sylt.Types.DeclOrder.decl_of v (Sylt.Types.DeclOrder.decls_of stmts) = Some d /\ In w (Sylt.Types.DeclOrder.mentioned d)).
+Proof. reflexivity. Qed.
+
+(* the chain, in all six source orders: C, B, A; a circle stays in the order of the search *)
+Definition c11_chA : stmt := SBlob "A" 1 (c11_sp 1) [] [("b", (c11_sp 1, TUser 2 [] (c11_sp 1)))] false.
+Definition c11_chB : stmt := SBlob "B" 2 (c11_sp 2) [] [("c", (c11_sp 2, TList (TUser 3 [] (c11_sp 2)) (c11_sp 2)))] false.
+Definition c11_chC : stmt := SBlob "C" 3 (c11_sp 3) [] [("v", (c11_sp 3, TResolved BInt (c11_sp 3)))] false.
+Definition c11_other : stmt := SDefinition "x" 9 Const (TImplied (c11_sp 9)) (EInt 1 (c11_sp 9)) (c11_sp 9).
+Example C11_chain_order_example :
+  Sylt.Types.DeclOrder.type_decl_order [c11_chA; c11_other; c11_chB; c11_chC] = [c11_chC; c11_chB; c11_chA] /\
+  Sylt.Types.DeclOrder.type_decl_order [c11_chA; c11_chC; c11_chB] = [c11_chC; c11_chB; c11_chA] /\
+  Sylt.Types.DeclOrder.type_decl_order [c11_chB; c11_chA; c11_chC] = [c11_chC; c11_chB; c11_chA] /\
+  Sylt.Types.DeclOrder.type_decl_order [c11_chB; c11_chC; c11_chA] = [c11_chC; c11_chB; c11_chA] /\
+  Sylt.Types.DeclOrder.type_decl_order [c11_chC; c11_chA; c11_chB] = [c11_chC; c11_chB; c11_chA] /\
+  Sylt.Types.DeclOrder.type_decl_order [c11_chC; c11_chB; c11_chA] = [c11_chC; c11_chB; c11_chA].
+Proof. repeat split; vm_compute; reflexivity. Qed.
+
+Print Assumptions C11_type_declarations_in_mention_order.
+Print Assumptions C11_type_declaration_order_complete.
+Print Assumptions C11_chain_order_example.
